@@ -39,7 +39,9 @@ var (
 	knownActive bool
 )
 
-func knownListed() bool {
+func knownListed() bool { return findingListed(knownKey) }
+
+func findingListed(key string) bool {
 	raw, err := os.ReadFile(os.Getenv("VERIF_KNOWN"))
 	if err != nil {
 		return false
@@ -55,7 +57,7 @@ func knownListed() bool {
 		return false
 	}
 	for _, f := range k.Findings {
-		if f.Property == "C33" && f.Key == knownKey && f.Status == "open" {
+		if f.Property == "C33" && f.Key == key && f.Status == "open" {
 			return true
 		}
 	}
